@@ -85,7 +85,9 @@ impl Cfg {
             max_dev_total: usize::MAX,
             stride: 1,
             offset: 0,
-            draw_cap: 4096,
+            // executions that draw more generator words than this end as `Truncated` (a subject that never stops drawing);
+            // large enough for every instance size used in the ramps (70000 genes x 3 individuals x 2 draws)
+            draw_cap: 1 << 22,
             seed,
             max_runs: u64::MAX,
         }
